@@ -21,3 +21,21 @@ package util
 //@   nopanic
 //@   modifies p[*]
 //@   ensures forall(a, forall(b, inPP(p, a, b) == (old(inPP(p, a, b)) || (a == ref(ptr1) && b == ref(ptr2)))))
+
+// Number rendering (C18, C04, C20): the text of a non-integral number is
+// exactly strconv's shortest decimal that parses back to the same float64, of
+// an integral one the decimal of the int64.  ASSUMED (strconv's documented
+// behaviour): with precision -1 FormatFloat is injective on non-NaN values,
+// which is what keeps rendering, map keys and set membership from merging
+// numbers that == tells apart beyond its tolerance.
+//@ func FmtFloat
+//@   props C18 C04 C20
+//@   nopanic
+//@   modifies
+//@   ensures #shortest result == strconv.FormatFloat(n, 'f', -1, 64)
+
+//@ func FmtInt
+//@   props C18 C04 C20
+//@   nopanic
+//@   modifies
+//@   ensures #decimal result == strconv.FormatInt(n, 10)
